@@ -352,8 +352,9 @@ class Run:
             'assumptions': self.assumptions,
             'wall_s': round(wall, 1), 'violations': len(lines),
         }
-        os.makedirs(os.path.join(VERIF, 'evidence'), exist_ok=True)
-        json.dump(ev, open(os.path.join(VERIF, 'evidence', self.prop + '.json'), 'w'), indent=1, default=str)
+        evdir = os.environ.get('VERIF_EVIDENCE_DIR', os.path.join(VERIF, 'evidence'))      # tools/try_patch.sh redirects this
+        os.makedirs(evdir, exist_ok=True)
+        json.dump(ev, open(os.path.join(evdir, self.prop + '.json'), 'w'), indent=1, default=str)
         for l in self.known:
             print(l)
         for n in self.notes:
